@@ -460,6 +460,16 @@ class Translator:
             if op in ('==', '!=') and getattr(a, 'boolsrc', None) is not None and lit_val(b) == 0:
                 return V(a.boolsrc if op == '!=' else '(!%s)' % a.boolsrc, 'i32b')
             if op in ('==', '!='): return V('(%s %s %s)' % (a.lean, op, b.lean), 'i32b')
+            # canonical spelling of comparisons against a literal, so that equivalent rewrites of the source (`x < 24` for
+            # `x <= 23`, `n > 0` for `n != 0` on unsigned operands, `x > 8` for `x >= 9`) regenerate the identical model
+            lb = lit_val(b)
+            if lb is not None and is_unsigned(a.t) and lit_val(a) is None:
+                if op == '>' and lb == 0: return V('(%s != %s)' % (a.lean, b.lean), 'i32b')
+                if op == '<' and lb >= 1: op, b = '<=', lit(lb - 1, a.t)
+                elif op == '>' and lb + 1 < 2 ** BITS[a.t]: op, b = '>=', lit(lb + 1, a.t)
+            elif lb is not None and is_signed(a.t) and lit_val(a) is None:
+                if op == '<' and lb - 1 >= -(2 ** (BITS[a.t] - 1)): op, b = '<=', lit(lb - 1, a.t)
+                elif op == '>' and lb + 1 < 2 ** (BITS[a.t] - 1): op, b = '>=', lit(lb + 1, a.t)
             return V('(decide (%s %s %s))' % (a.lean, op, b.lean), 'i32b')
         t = ctype(e['type'])
         if op in ('<<', '>>'):
